@@ -189,6 +189,8 @@ type Engine struct {
 	stubsHit  map[string]bool
 
 	clock      int64
+	unsupSeen  map[string]bool
+	rtypes     typeutil.Map
 	inInitOf   *ssa.Package
 	uniq       map[string]*Node
 	panicStack string
@@ -231,6 +233,7 @@ func NewEngine(P *Program, cfg Config) (*Engine, error) {
 	e.stubsHit = map[string]bool{}
 	e.res = newResults()
 	e.ps.eqs = map[*Term]uint64{}
+	e.ps.lits = map[*Term]bool{}
 	registerIntrinsics(e)
 	return e, nil
 }
